@@ -311,8 +311,8 @@ fn classes(id: &str, thorough: bool) -> Vec<Class> {
     let b = |p, d, w| Budget { p, d, w };
     let mut v = Vec::new();
     // quick: the canonical schedule (lowest runnable id first, lowest-id wake target) and every single departure from it
-    // (another thread at a forced switch, another wake target, a spurious futex return); thorough: plus one preemption
-    let bud = if thorough { b(1, 1, 0) } else { b(0, 1, 0) };
+    // (another thread at a forced switch, another wake target, a spurious futex return); thorough: more thread counts, every schedule with one preemption and no other departure
+    let bud = if thorough { b(1, 0, 0) } else { b(0, 1, 0) };
     let ks: &[usize] = if thorough { &[33, 65, 70, 79] } else { &[65, 70] };
     for &k in ks {
         let k = k.min(ilv::MAX_THREADS - 1);
